@@ -81,7 +81,7 @@ for n in range(0, 7):
 # record-count slices: arbitrary bytes restricted (by assumption over the reference decode) to inputs with
 # <= K complete records, the K-th ending the input; decoder loop bound = K.  One loop iteration of
 # ldb_edit_import costs 30-100 s of solver time whatever N is, hence the sparse quick set.
-EDIT_QUICK_1REC = (4, 8, 11, 12, 16, 22, 24)
+EDIT_QUICK_1REC = (4, 11, 22)   # smallest records / compact pointer can be accepted / new file can be accepted
 for k, ns in ((1, range(2, 33)), (2, range(4, 13))):
     for n in ns:
         quick = (k == 1 and n in EDIT_QUICK_1REC)
@@ -200,10 +200,14 @@ def block_obl(n, ops, ikc=0, t=2, tier="quick", timeout=300):
 ALL_OPS = ((1,), (2,), (3,), (1, 4), (2, 5), (3, 4), (3, 5), (3, 6))
 for n in (0, 3, 4, 7):
     block_obl(n, (0,))
-for n in (11, 12):
-    for ops in ALL_OPS:
-        block_obl(n, ops)
-block_obl(12, (3,), ikc=1, t=7)
+for ops in ALL_OPS:
+    block_obl(12, ops)
+for ops in ((1,), (3,)):
+    block_obl(11, ops)
+block_obl(12, (3,), ikc=1, t=7, tier="thorough", timeout=3600)
+for ops in ALL_OPS[1:]:
+    if ops != (3,):
+        block_obl(11, ops, tier="thorough", timeout=3600)
 # thorough: more sizes (16 = two restart points / up to 2 entries, 20 = two distinct restart regions), 3-op sequences,
 # internal-key comparator with entries that can be valid (>= 11 bytes each)
 for n in (8, 9, 10, 13, 14, 15, 16):
@@ -276,4 +280,61 @@ for n in list(range(9, 14)) + list(range(16, 25)):
 for n in (7, 8, 14, 15, 16, 21, 22):
     log_obl(n, n // 7 + 1, "thorough", 7200)
 
-META = {}
+META = {
+    "level": "model_checking",
+    "level_text": "Bounded model checking (CBMC 6.11) of lcdb's own decoder code (util/coding.h, util/slice.c, util/buffer.c, "
+                  "write_batch.c, version_edit.c, table/format.c, table/block.c, table/filter_block.c, util/bloom.c, util/snappy.c, "
+                  "log_reader.c, dbformat.c, filename.c, util/strutil.c) on ARBITRARY input bytes of every concrete length in the "
+                  "stated ranges: CBMC's pointer/bounds/signed-overflow/shift/pointer-overflow checks, termination inside per-loop "
+                  "bounds derived from the input length (an unwinding-assertion failure is a counterexample), and agreement "
+                  "(accept/reject, decoded values, bytes consumed, slices inside the input) with independent reference decoders "
+                  "written in the harnesses from the LevelDB format documents; counterexamples are replayed natively under ASan+UBSan.",
+    "level_note": "Trusted: CBMC's C semantics of the goto-cc translation, the kit models (allocator never fails; "
+                  "kit/vp_alloc_slab.c gives every ldb_realloc buffer a concrete-size object with the buffer right-aligned so that "
+                  "overruns past the requested size are still out of bounds, underruns inside the slab are not seen; byte-loop mem*/str*; "
+                  "abstract streaming checksum instead of CRC-32C; red-black tree of version_edit's deleted_files modelled as an array set; "
+                  "ldb_hash abstracted to an arbitrary 32-bit value in the bloom obligation), and the harness reference decoders. "
+                  "Input sizes are tiny (see bounds); the decoder loops are covered for the iteration counts those sizes allow. "
+                  "version_edit and block iterator obligations are sliced (<= 1 or 2 complete records per edit; one to three iterator "
+                  "operations per query) because one loop iteration of those units costs 30-300 s of solver time.",
+    "explanation": "Every obligation feeds vp_input(N)+vp_fill (an exact-size heap object with symbolic contents) to one decoder entry point; "
+                   "both the accept and the reject path carry a reachability witness where the length allows both.",
+    "bounds": [
+        "coding.h/slice.c/buffer.c readers: every length 0..12",
+        "write batch (ldb_batch_iterate, recording handler): every rep length 0..20 (quick), ..28 (thorough)",
+        "version edit (ldb_edit_import): all inputs of length 0..3 (quick), ..6 (thorough); inputs holding <= 1 complete record: lengths 4, 11, 22 (quick), 2..32 (thorough); <= 2 records: 4..12 (thorough)",
+        "block handle: every length 0..20; footer: lengths 0, 1, 8, 40, 47, 48, 49, 56",
+        "block (init, create, first/last/seek/next/prev/second seek, bytewise comparator): init 0,3,4,7; all 8 op sequences at 12 bytes, first+seek at 11 (quick); 8..16 and 20 bytes, 3-op sequences at 12/14, internal-key comparator at 12/19/20 bytes (thorough); seek targets of 2 (bytewise) / 7, 8 (internal) arbitrary bytes",
+        "filter block reader: every length 0..16 (quick), ..24 (thorough), arbitrary 64-bit block offset; bloom_match on filters of 0,1,2,3,5 (9 thorough) bytes",
+        "snappy: compressed length 0..8 with announced length <= 8 (quick); 2..12 with <= 16, 4/8 with <= 32 (thorough)",
+        "log reader (first read_record call, src hook, abstract checksum, recording reporter): every file length 0..8, 14, 15 (quick), 9..24 and all calls until EOF at 7,8,14,15,16,21,22 (thorough)",
+        "parsed internal key: every length 0..12; internal key comparator: key pairs (8,8),(8,9),(9,8),(10,10),(12,9),(12,12),(16,16)",
+        "file names / decimal numbers: every NUL-terminated string of 0..12 non-NUL chars (digit runs <= 7 for length > 7), the uint64 boundary with 18/19 concrete leading digits + 2 arbitrary chars; all-digit strings of 8,10,12,19 chars (thorough)",
+    ],
+    "outside": [
+        "inputs longer than the stated lengths (real blocks are 4 KiB, log blocks 32 KiB: the 32 KiB block boundary of the log reader, multi-block files and initial_offset > 0 are not covered)",
+        "version edits with 3 or more records in one query; block iterator sequences longer than 3 operations; blocks with more than ~4 entries or 4 restart points",
+        "ldb_read_block (file read + checksum + decompression glue), ldb_table_open/internal_get, repair.c, dumpfile.c, whole-database operations on mutated directories",
+        "real CRC-32C (abstract checksum here; CRC itself is C15), real ldb_hash in bloom_match",
+        "ldb_slice_decode (memtable-internal, trusted 5-byte prefix precondition)",
+        "allocation failure; accesses before the start of an ldb_realloc'ed buffer that stay inside its slab",
+    ],
+    "models": [
+        "kit/vp_nondet.c symbolic input sources", "kit/vp_mem.c byte-loop memcpy/memmove/memset/memcmp/strlen",
+        "kit/vp_str.c byte-loop strcmp/strncmp/strrchr (new, C18)",
+        "kit/vp_alloc.c (coding, batch, format, dbformat, filename, filter obligations)",
+        "kit/vp_alloc_slab.c concrete-size right-aligned slabs for ldb_realloc + typed fixed-capacity pointer vectors (new, C18; block, edit, log reader)",
+        "kit/vp_vector_inc.h real util/vector.c with typed pointer arrays (edit)",
+        "kit/vp_cksum.c abstract streaming checksum for ldb_crc32c_extend (log reader)",
+        "harness model of util/rbt.c set (ldb_rb_tree_init/clear, ldb_rb_set_put) in C18/edit.c",
+        "harness model of sprintf (writes the longest possible 'unknown record type' message) in C18/logreader.c",
+        "harness stub ldb_hash = arbitrary 32-bit value in C18/filter.c (bloom obligation)",
+        "function-pointer call sites restricted to the installed targets (handler, comparator, filter policy, reporter, iterator clear)",
+    ],
+    "assumptions": [
+        "snappy: announced uncompressed length <= VP_OUT (the caller-allocated output buffer has exactly the announced length)",
+        "version edit slices: the input holds at most K complete records (K-th ends the input) as decided by the reference decoder",
+        "file names longer than 7 chars: leading digit run <= 7 digits (long runs: boundary and thorough all-digit obligations)",
+        "iterator next/prev are only issued on a valid iterator (documented precondition)",
+    ],
+}
